@@ -13,7 +13,7 @@ CASE_TIMEOUT = 10
 RULE = ('column names (tables, conditions, callable arguments, find_<col>) are drawn from a pool that includes id, name, date, f, n1, _x, find_me, dd '
         '(names built from / starting with the letters of "find_") besides a, b, c. '
         'cases: (table of 0-6 rows x 1-3 columns over {None, 0, 1, 1.0, 2, 2.5, shared NaN objects, "a", "ab", "b", ""}, condition, column for find_) '
-        'where the condition is: nothing; 1-3 keyword filters (or the same as a positional dict) each a value / None / a NaN (the shared object or a fresh one) / '
+        'where the condition is: nothing; 1-3 column conditions spelled as keyword filters, one positional dict, dict + keywords, two dicts, two dicts + keywords (incl. an empty dict, and a key occurring in two groups: the later group wins, as filters.update does) each a value / None / a NaN (the shared object or a fresh one) / '
         'a list of values (incl. lists holding NaN objects, empty lists) / a compiled literal regex; or one callable from the named set (coalesce, is_none, '
         'identity, eq). Conditions matching nothing and everything are forced. For each case d.inc(c), d.exc(c), d.inc(c).inc(c), d.find_<col>(c), '
         'd.one_or_none(c) and d itself afterwards are compared inside Coq with the model (and the model with the filter spec); the oracle recomputes '
@@ -27,6 +27,8 @@ TRUSTED = ['modelled, not verified: coq/model/M_filter.v + M_table.v (tied by th
            'regexes restricted to literal patterns (re.escape): pattern.search = substring test',
            'kwargs_support / callables restricted to the named set of M_table.rowfn']
 ASSUMPTIONS = ['cells are None, ints, half-integer floats, NaN objects, ASCII strings',
+               'a conjunction spelled across keyword filters and positional dicts is the flattened list kw ++ dict1 ++ dict2 (model: QFilters + dict_of); when one column gets two '
+               'different conditions in one call the model follows the code (the later group wins) but the oracle only claims that inc/exc still partition the rows in order',
                'a call has either ONE callable or keyword/dict filters, as in the property text ("any single predicate ..., or any conjunction of column conditions"): '
                'mixed calls inc(f, col=v) / exc(f, col=v) are outside it - exc(f, col=v) drops the rows matching f OR the filters, so it is by design not the complement '
                'of inc(f, col=v); observed on the pinned tree and not claimed: inc(<callable matching nothing>, col=v) raises KeyError because the intermediate empty result has lost its columns',
@@ -66,9 +68,34 @@ def cond_py(c, conv):
 def call_with(method, q, conv):
     if 'none' in q: return method()
     if 'f' in q: return method(mk_rowfn(q['f']))
-    kw = {}
-    for k, c in q['filters']: kw[k] = cond_py(c, conv)
-    return method(kw) if q.get('form') == 'dict' else method(**kw)
+    kw, d1, d2 = groups_of(q)
+    conv_ = lambda g: {k: cond_py(c, conv) for k, c in g}
+    pos = ([conv_(d1)] if d1 is not None else []) + ([conv_(d2)] if d2 is not None else [])
+    return method(*pos, **conv_(kw))
+
+def groups_of(q):
+    """the spelling of a conjunction of column conditions: keyword filters, then up to two positional dicts.
+    q['filters'] is the flattened list kw ++ dict1 ++ dict2 (what filters.update(dict) builds: later entries win);
+    q['groups'] = [n_kw, n_dict1, n_dict2] with n = None for 'no such argument'"""
+    fs = q['filters']
+    g = q.get('groups')
+    if g is None: g = [0, len(fs), None] if q.get('form') == 'dict' else [len(fs), None, None]
+    nk = g[0] or 0; n1 = g[1]; n2 = g[2]
+    kw = fs[:nk]; d1 = None if n1 is None else fs[nk:nk + n1]; d2 = None if n2 is None else fs[nk + (n1 or 0):nk + (n1 or 0) + n2]
+    return kw, d1, d2
+
+def overlapping(q):
+    seen = {}
+    for k, c in q['filters']:
+        if k in seen and seen[k] != json.dumps(c, sort_keys=True): return True
+        seen[k] = json.dumps(c, sort_keys=True)
+    return False
+
+def is_subseq(a, b):
+    i = 0
+    for y in b:
+        if i < len(a) and set(a[i]) == set(y) and all(same(a[i][k], y[k]) for k in y): i += 1
+    return i == len(a)
 
 def sat_cond(c, v, conv):
     """the property text: a value, a list of admissible values, None, NaN, or a compiled regex"""
@@ -134,8 +161,20 @@ def impl(case):
         elif 'f' in q: sel = [bool(ref_rowfn(q['f'], r)) for r in rows]
         else:
             conds = {}
-            for k, c in q['filters']: conds[k] = c
+            for k, c in q['filters']: conds[k] = c          # kw, dict1, dict2 in this order: the conjunction of all the column conditions
             sel = [all(sat_cond(c, r[k], conv) for k, c in conds.items()) for r in rows]
+            if overlapping(q):
+                # two different conditions on ONE column in one call (kw vs dict): the text does not say whether both apply or the later
+                # one wins (the code: later wins) - no claim on which rows, only that inc/exc still split the rows, in order, keeping columns
+                for name, res in (('inc', r_inc), ('exc', r_exc)):
+                    if res[0] != 'ok': viol = '%s(%s) raised %s on table %s' % (name, json.dumps(q, sort_keys=True), res[0], snap); break
+                if viol is None:
+                    ki, gi = table_rows(r_inc[1]); ke, ge = table_rows(r_exc[1])
+                    if set(ki) != set(cols) or set(ke) != set(cols): viol = 'inc/exc(%s) on %s lost columns: %s / %s' % (json.dumps(q, sort_keys=True), snap, ki, ke)
+                    elif len(gi) + len(ge) != len(rows) or not is_subseq(gi, rows) or not is_subseq(ge, rows):
+                        viol = 'inc/exc(%s) on %s do not partition the rows in order: inc %s, exc %s' % (json.dumps(q, sort_keys=True), snap, gi, ge)
+                claim = False
+    if claim and viol is None:
         exp_inc = [r for r, s in zip(rows, sel) if s]
         exp_exc = [r for r, s in zip(rows, sel) if not s] if 'none' not in q else list(rows)     # no condition: nothing to exclude
         what = json.dumps(q, sort_keys=True)
@@ -206,6 +245,22 @@ def gen_cases(rng, tier):
                 colvals = dict(kvs).get(k, {'L': []})['L']
                 fs.append([k, gen_cond(rng, pool, colvals)])
             q = {'filters': fs, 'form': rng.choice(['kw', 'dict'])}
+            if rng.random() < 0.55:
+                # the same conjunction spelled across keyword filters and one or two positional dicts
+                if rng.random() < 0.25 and names:            # a second, different condition on a column already used, in a later group
+                    k = rng.choice([f[0] for f in fs]); fs.append([k, gen_cond(rng, pool, dict(kvs).get(k, {'L': []})['L'])])
+                n = len(fs); shp = rng.choice(['d+kw', 'd+kw', 'd+d', 'd+d', 'd+d+kw', 'empty+kw'])
+                cut = sorted(rng.randrange(0, n + 1) for _ in range(2))
+                if shp == 'd+kw': g = [cut[1], n - cut[1], None]
+                elif shp == 'd+d': g = [0, cut[1], n - cut[1]]
+                elif shp == 'd+d+kw': g = [cut[0], cut[1] - cut[0], n - cut[1]]
+                else: g = [n, 0, None]
+                # inside one group (a python dict / the keyword arguments) a key occurs once
+                ok = True; pos = 0
+                for size in (g[0], g[1] or 0, g[2] or 0):
+                    ks_ = [f[0] for f in fs[pos:pos + size]]; ok = ok and len(set(ks_)) == len(ks_); pos += size
+                if ok: q = {'filters': fs, 'form': 'split', 'groups': g}
+                else: q = {'filters': fs[:len(ks)], 'form': q['form']}
         cases.append({'kvs': kvs, 'q': q, 'fkey': rng.choice(names + (['z'] if rng.random() < 0.03 else [])), 'kind': 'random'})
     # small scope: every table of <= 3 rows over {None, 1, NaN0} (one filtered column + an index column) x every single condition
     vals = [None, 1, {'nan': 0}]
@@ -217,6 +272,21 @@ def gen_cases(rng, tier):
                 if rng.random() > frac: continue
                 ka, kb = rng.choice(NAME_PAIRS)
                 cases.append({'kvs': [[ka, {'L': list(cells)}], [kb, {'L': list(range(nrows))}]], 'q': {'filters': [[ka, c]], 'form': 'kw'}, 'fkey': rng.choice([kb, kb, ka]), 'kind': 'small'})
+    # small scope for conjunctions: every table of <= 3 rows over two columns in {None, 1} x {a: 1 | None} x {b: 1 | None | [None, 1]} x every spelling,
+    # plus an overlapping pair (keyword a=1, dict a=None)
+    for nrows in range(4):
+        for cells in itertools.product([None, 1], repeat=2 * nrows):
+            for ca in ({'v': 1}, {'v': None}):
+                for cb in ({'v': 1}, {'v': None}, {'l': [None, 1]}):
+                    for g in ([2, None, None], [0, 2, None], [1, 1, None], [0, 1, 1], [1, 0, 1], [0, 2, 0]):
+                        if rng.random() > frac: continue
+                        ka, kb = rng.choice(NAME_PAIRS)
+                        fs = [[ka, ca], [kb, cb]] if rng.random() < 0.5 else [[kb, cb], [ka, ca]]
+                        cases.append({'kvs': [[ka, {'L': list(cells[:nrows])}], [kb, {'L': list(cells[nrows:])}]], 'q': {'filters': fs, 'form': 'split', 'groups': g},
+                                      'fkey': rng.choice([ka, kb]), 'kind': 'small2'})
+            if rng.random() <= frac:
+                cases.append({'kvs': [['a', {'L': list(cells[:nrows])}], ['b', {'L': list(cells[nrows:])}]],
+                              'q': {'filters': [['a', {'v': 1}], ['b', {'v': 1}], ['a', {'v': None}]], 'form': 'split', 'groups': [2, 1, None]}, 'fkey': 'b', 'kind': 'small2'})
     return cases
 
 def nontrivial(case, result):
@@ -228,7 +298,7 @@ def nontrivial(case, result):
 
 def shape(case):
     q = case['q']
-    k = 'none' if 'none' in q else 'callable' if 'f' in q else 'filters%d' % len(q['filters'])
+    k = 'none' if 'none' in q else 'callable' if 'f' in q else 'filters%d%s' % (len(q['filters']), ':' + '/'.join('-' if x is None else str(x) for x in q['groups']) if q.get('groups') else '')
     return '%s:%s' % (case.get('kind', 'corpus'), k)
 
 def shrink(case):
@@ -239,9 +309,18 @@ def shrink(case):
     q = case['q']
     if 'filters' in q and len(q['filters']) > 1:
         for i in range(len(q['filters'])):
-            yield dict(case, q=dict(q, filters=q['filters'][:i] + q['filters'][i + 1:]))
+            q2 = dict(q, filters=q['filters'][:i] + q['filters'][i + 1:])
+            if q.get('groups'):
+                g = list(q['groups']); pos = 0
+                for j in range(3):
+                    size = g[j] or 0
+                    if pos <= i < pos + size: g[j] = size - 1
+                    pos += size
+                q2['groups'] = g
+            yield dict(case, q=q2)
     if 'filters' in q:
         for i, (k, c) in enumerate(q['filters']):
+            if q.get('groups'): break
             if 'l' in c and len(c['l']) > 1:
                 for j in range(len(c['l'])):
                     yield dict(case, q=dict(q, filters=q['filters'][:i] + [[k, {'l': c['l'][:j] + c['l'][j + 1:]}]] + q['filters'][i + 1:]))
